@@ -515,7 +515,7 @@ def check_orientation(ctx):
                           % (qual, name, "/".join(sorted(ins)), "/".join(sorted(out_sides))),
                           detail="%s: deque defined by `%s` is first-in first-out (in: %s, out: %s)" % (qual, A.short(st.value, 40), "/".join(sorted(ins)), "/".join(sorted(out_sides))),
                           construct="fifo:%s:%s:%s" % (qual.split(".")[-1], "/".join(sorted(ins)), "/".join(sorted(out_sides))))
-    ctx.instances_floor("C17-d", n, 5, "deques with insertions and removals in the negative Slice and RunningChunkBy")
+    ctx.instances_floor("C17-d", n, 4, "deques with insertions and removals in the negative Slice and RunningChunkBy")
 
 
 # -- C17-e -----------------------------------------------------------------------------------
